@@ -223,6 +223,13 @@ class Runner:
         a, b = self.observe(base, ph), self.observe(rewritten, ph)
         if a is None or b is None:
             return False
+        if a != b and clause in (CL_ORDER, CL_COMBINED) and "Def-expand/" in base and kind != "fixed witness":
+            # symptom of defect D8: the two writings differ only in how many DEF_EXPAND_INVALID they get
+            strip = lambda c: [x for x in c if x != "DEF_EXPAND_INVALID"]
+            if strip(a) == strip(b):
+                self.counts[clause] -= 1
+                clause = CL_ORDER_D8
+                self.counts[clause] = self.counts.get(clause, 0) + 1
         return self.w.check(a == b, clause, self.inp(base, rewritten, ph, kind), observed={"base": a, "rewritten": b},
                             expected="equal multisets of error codes")
 
@@ -328,13 +335,14 @@ def part_small(w, run, model, trees, label):
             run.same(base, render(o), order_clause(base_t, o), "order")
         # spelling and spacing on two orderings
         nl = count_leaves(tree)
+        few = quick or nl > 3
         for o in (ords[0], ords[-1]):
             b = render(o)
-            for pat in style_patterns(nl, rng, 3 if quick else 5):
+            for pat in style_patterns(nl, rng, 3 if few else 5):
                 run.same(b, render(o, styles=pat), CL_FORM, "path form")
-            for pat in case_patterns(nl, rng, 3 if quick else 5):
+            for pat in case_patterns(nl, rng, 3 if few else 5):
                 run.same(b, render(o, styles=pat), CL_CASE, "letter case")
-            for pat in blank_patterns(rng, 4 if quick else 6):
+            for pat in blank_patterns(rng, 4 if few else 6):
                 run.same(b, render(o, blanks=pat), CL_SPACE, "blanks")
             if ti % 3 == 0:
                 sp, cp, bp = style_patterns(nl, rng, 4)[-1], case_patterns(nl, rng, 4)[-1], blank_patterns(rng, 5)[-1]
@@ -454,7 +462,7 @@ def part_rich(w, run, model, vocab, defs):
     before = run.n
     good, bad = rich_atoms(model, vocab, defs, rng, quick)
     specials = [(k, to_leaves(model, g), top) for k, g, top in special_groups(model, defs)]
-    nbase = 260 if quick else 2500
+    nbase = 260 if quick else 1200
     for bi in range(nbase):
         n = rng.randint(1, 5)
         d = rng.randint(0, 4)
@@ -660,7 +668,7 @@ def run(w: Workload):
                       "every delimiter of a stride sample of the <= 3-leaf trees; 4-6 blank patterns each",
             "rich": "%d random annotations (<= 5 atoms + special group, depth <= 4 (+2 inside special groups), a quarter each: "
                     "plain / with special group / with one fault / both); 5 path-form, 5 case, 6 blank, 6 order, 3 combined "
-                    "rewrites each; every 5th base with allow_placeholders=True" % ((260 if w.quick else 2500) * (2 if w.quick else 6)),
+                    "rewrites each; every 5th base with allow_placeholders=True" % ((260 if w.quick else 1200) * (2 if w.quick else 6)),
             "witness": "fixed list of minimal pairs for the narrow clauses and their passing neighbours",
             "dups": "every group G over {Red, Blue, Green} with <= 3 leaves and depth <= 2, every pair of written member orders of G as "
                     "two sibling copies, 7 sets of further siblings, %s sibling positions, at nesting depth 0, 1 and 3 "
